@@ -678,6 +678,8 @@ class Library(object):
     def __init__(self):
         self.classes = struct_classes()
         self.examples = {}       # class key -> list of (instance, version it was decoded under, origin)
+        self.sources = {}        # class key -> list of (version, bytes) the class decoded completely (ground truth
+                                 # that no later decode can have touched)
         self.seen_bytes = set()
         self.stats = {"vectors": 0, "items_tried": 0, "decoded": 0}
 
@@ -725,6 +727,9 @@ class Library(object):
                     if left:
                         continue
                     self.stats["decoded"] += 1
+                    src = self.sources.setdefault(k, [])
+                    if len(src) < 200:
+                        src.append((v, item))
                     self.stats["stale_text_padding_repaired"] = self.stats.get("stale_text_padding_repaired", 0) \
                         + repair_text_padding(o)
                     self.add_instance(o, v, origin)
